@@ -28,7 +28,12 @@ def to_ast(t):
     if k == "binop":
         return ast.BinOp(left=to_ast(t["l"]), op=ast.Add(), right=to_ast(t["r"]))
     if k == "const":
-        return ast.Constant(value=t["c"])
+        # a constant that is no text carries its class in the term's string ("#int:1", "#bool:True", "#float:1.0")
+        c = t["c"]
+        for tag, conv in (("#int:", int), ("#bool:", lambda x: x == "True"), ("#float:", float)):
+            if c.startswith(tag):
+                return ast.Constant(value=conv(c[len(tag):]))
+        return ast.Constant(value=c)
     if k == "none":
         return ast.Constant(value=None)
     if k == "ell":
@@ -56,6 +61,8 @@ def from_ast(n):
             return {"k": "none"}
         if n.value is ...:
             return {"k": "ell"}
+        if isinstance(n.value, (bool, int, float)):         # 1, True and 1.0 are equal but different constants
+            return {"k": "const", "c": f"#{type(n.value).__name__}:{n.value}"}
         return {"k": "const", "c": str(n.value)}
     if isinstance(n, ast.Call):
         return {"k": "call", "f": from_ast(n.func), "xs": [from_ast(x) for x in n.args]}
@@ -159,7 +166,10 @@ def extra_expressions(rng, n):
     out = ["Literal['a|b', 'x[y]'] | None", "Annotated[int | str, 'm|n']", "typing.Callable[[int | str], dict]",
            "typing.Callable[..., list | None]", "dict[str, list[int | None]] | None", "1 + 2", "f(x)", "a.b.c",
            "Pattern | None", "tuple[int | str, ...]", "Literal['two  blanks', 'tab\\tbed'] | None", "Annotated[int | str, ' padded  meta ']",
-           "dict[str, Literal['a\\nb']] | None", "Literal['x   y']", "Foo[int | None, dict]", "x + y * 2", "int", "typing.Dict[str, int]"]
+           "dict[str, Literal['a\\nb']] | None", "Literal['x   y']",
+           # members that differ only by constants which compare equal (1 == True == 1.0)
+           "Literal[1] | Literal[True]", "list[Literal[True]] | list[Literal[1]]", "Literal[0] | Literal[False] | None",
+           "Literal[1] | Literal[1.0] | int", "int | str | int", "Foo[1] | Foo[True]", "Foo[int | None, dict]", "x + y * 2", "int", "typing.Dict[str, int]"]
     leaves = ["int", "str", "None", "dict", "list", "tuple", "set", "Foo", "m.Foo", "'F|wd'", "...", "Pattern", "'two  blanks'"]
     heads = ["list", "dict", "tuple", "set", "Foo", "Annotated", "typing.Callable", "typing.Optional", "typing.Union",
              "Literal", "typing.Dict", "m.Foo"]
